@@ -14,7 +14,7 @@
    Neumann-normal terms (normals=...) are outside the property and the model. *)
 From Coq Require Import List ZArith Bool Arith Reals Lia Lra.
 Import ListNotations.
-From FV.C15 Require Import Model Proofs Span Positive.
+From FV.C15 Require Import Model Proofs Span Positive Scale.
 Local Open Scope R_scope.
 
 (* 1a. Constants are mapped to zero by every returned matrix: every mesh,
@@ -230,6 +230,16 @@ Proof.
   intros order1 k1 o kern m evol As rows inc mv Hmm HA.
   exact (C15_exact_on_spanning_neighbourhoods o kern mv evol As rows inc Hmm HA).
 Qed.
+
+(* 5. Covariance under a change of units: multiplying every stored offset by
+   s <> 0 (unit of length) and every weight by t <> 0 (volumes scale like s^3,
+   a kernel by anything) divides every coefficient of the row by s, with or
+   without moment matrix.  So the operator of the same mesh given in mm, m or
+   km is the same operator up to the unit; there is no privileged scale. *)
+Theorem C15_scale_covariant :
+  forall (mm : bool) (s t : R) (ns : list (nbr R)), s <> 0 -> t <> 0 ->
+    row_coefs ROps mm (map (scale_nbr s t) ns) = map (scale_coef s) (row_coefs ROps mm ns).
+Proof. exact row_coefs_scale. Qed.
 
 (* ------------------------------------------------------------------ *)
 (* non-vacuity: a tetrahedron with sparse, unsorted ids; at the vertex with
